@@ -192,7 +192,7 @@ def random_doc(rng, max_nodes=40, anim_styles=False, space=False, ruby=True, rub
           # annotation may be presented for part of the time only, the base may disappear under it
           rk = add("ruby", p, timed=True, regable=False)
           loose = rng.random() < 0.5
-          if rng.random() < 0.35:
+          if rng.random() < 0.5:
             # group ruby: a base container and an annotation container, each with one or two members; timing / display on
             # any of them (all bases may be gone while the annotation is still there, and the other way round)
             for cont, member in (("rbc", "rb"), ("rtc", "rt")):
@@ -201,10 +201,16 @@ def random_doc(rng, max_nodes=40, anim_styles=False, space=False, ruby=True, rub
               if not own:
                 disp[ck - 1] = ""
                 anim[ck - 1] = []
+              early = loose and member == "rb" and rng.random() < 0.35      # every base ends early, the annotation stays
               for _m in range(rng.choice([1, 2])):
-                own_m = loose and rng.random() < 0.5
+                own_m = loose and rng.random() < 0.6
                 mk = add(member, ck, timed=own_m, regable=False)
                 if not own_m:
+                  disp[mk - 1] = ""
+                  anim[mk - 1] = []
+                if early:
+                  b[mk - 1] = NONE_T
+                  e[mk - 1] = t_opt(0.0)
                   disp[mk - 1] = ""
                   anim[mk - 1] = []
                 sp = add("span", mk, timed=False, regable=False)
